@@ -1,5 +1,7 @@
 import HdVerif.Proofs.SRReport
 import HdVerif.Generated.T16d
+import HdVerif.Generated.T16e
+import HdVerif.Generated.T16f
 /-! # C16  Measurement-report queries return exactly the matching groups
 
 Property theorems only.  Model: `Model/SRReport.lean`.  The kind classification by content counting
@@ -35,7 +37,8 @@ theorem query_is_document_order_filter (k : Kind) (gs : List Group) (f : Filters
 /-- **Soundness and completeness over construction parameters.**  For a report built from groups with parameters
 `ps` (consistent with what the constructors accept; evaluation names not reserved), an accepted query returns, in
 document order and once each, exactly the positions of the groups whose parameters say they are of the queried
-kind and satisfy every filter (whatever session, algorithm identification, time point context and real world value map
+kind and satisfy every filter (with or without template identification on each container: `specKind` is the template
+test when `p.template`, the content classification otherwise; whatever session, algorithm identification, time point context and real world value map
 the groups carry: `ContextOK`) — never a group of another kind, never one failing a filter, never omitting one. -/
 theorem query_sound_complete (k : Kind) (ps : List Params) (f : Filters)
     (hcons : ∀ p ∈ ps, p.consistent = true) (hclean : ∀ p ∈ ps, CleanNames p) (hctx : ∀ p ∈ ps, ContextOK p)
@@ -70,6 +73,16 @@ theorem query_sound_complete (k : Kind) (ps : List Params) (f : Filters)
     rw [keep_constructed k p f (hcons p hmem) (hclean p hmem) (hctx p hmem), hk1, hk2]
     rfl
 
+/-- **No state is carried from one group to the next** in any of the three query loops: the table of variables that are
+assigned inside `for group_item in measurement_group_items:` and may be read by an iteration before it writes them
+(upward-exposed uses, computed from the current source on every run, T16e) is empty for all three methods, and the result
+list is only appended to.  This is what entitles the model to decide every group by `keep k g f` alone; a flag initialised
+before the loop and accumulated inside it (e.g. `contains_rois |= …`) makes this theorem fail. -/
+theorem no_state_carried_across_groups :
+    Gen.queryLoopCarried.map Prod.fst = ["get_planar_roi_measurement_groups", "get_volumetric_roi_measurement_groups",
+                                          "get_image_measurement_groups"] ∧
+    ∀ row ∈ Gen.queryLoopCarried, row.2 = [] := by decide
+
 /-- a query whose arguments are refused returns nothing at all: the error of the argument check -/
 theorem refused_arguments_refuse_query (k : Kind) (gs : List Group) (f : Filters) (e : ErrKind) (h : argCheck k f = .error e) :
     query k gs f = .error e := by
@@ -89,6 +102,15 @@ theorem filter_item_tests_are_source_tests (r : Ref) (cls inst : Option String) 
     all_goals grind
   · unfold Gen.codeItemMatches; cases (itemValue == v) <;> rfl
   · unfold Gen.uidrefItemMatches; cases (itemValue == v) <;> rfl
+
+/-- The graphic-type entry of the model (`graphicMatches`: a 2-D graphic type only ever matches a SCOORD item, a 3-D one only
+a SCOORD3D item, and then iff the stored graphic type is the one asked for) is the block of the source as it stands now, in
+both ROI queries (T16f; the stored string is read into the enumeration of the branch). -/
+theorem graphic_entry_is_source_entry (it : GItem) (gt : Bool × String) :
+    Gen.planarGraphicEntry gt.1 it.vt (it.graphic == gt.2) = .ok (graphicMatches it gt) ∧
+    Gen.volumetricGraphicEntry gt.1 it.vt (it.graphic == gt.2) = .ok (graphicMatches it gt) := by
+  unfold Gen.planarGraphicEntry Gen.volumetricGraphicEntry graphicMatches
+  cases gt.1 <;> by_cases h1 : it.vt = "SCOORD" <;> by_cases h2 : it.vt = "SCOORD3D" <;> simp_all
 
 /-! ## kinds -/
 
